@@ -75,7 +75,11 @@ Proof.
 Qed.
 
 Theorem multshift_zero h : 0 <= h < 2 ^ 64 -> pvMultShift h 0 = 0.
-Proof. intros. rewrite pvMultShift_math by lia. reflexivity. Qed.
+Proof.
+  intros. rewrite pvMultShift_math by lia. unfold ms_math.
+  change (0 / 2 ^ 32) with 0. change (0 mod 2 ^ 32) with 0.
+  rewrite !Z.mul_0_r, Z.mul_0_l. reflexivity.
+Qed.
 
 (* it is not the exact floor: witness h = n = 2^64-1 (exact 2^64-2, computed 2^64-3) *)
 Theorem multshift_not_exact : exists h n, 0 <= h < 2 ^ 64 /\ 0 < n < 2 ^ 64 /\ pvMultShift h n < (h * n) / 2 ^ 64.
